@@ -258,6 +258,20 @@ bool World::run(int first, int last, Observer* obs) {
             sim_seconds += dt; ++ministeps_done;
             prev = t;
         }
+        if (cfg.wtest_activity) {
+            // what a simulator does with WTEST: wells it closes are registered with the reason, and closed wells are offered for
+            // testing when their interval has elapsed; a tested well re-opens or stays closed
+            const auto& wc = (*sched)[static_cast<size_t>(r)].wtest_config();
+            for (const auto& wn : sched->wellNames(static_cast<size_t>(r))) {
+                if (!wc.has(wn)) continue;
+                std::uint64_t h = sim::mix64(cfg.physics_seed) + static_cast<std::uint64_t>(r) * 131; for (char ch : wn) h = h * 31 + static_cast<unsigned char>(ch);
+                if (!wtest.well_is_closed(wn) && unit01(h) < 0.35) wtest.close_well(wn, wc.has(wn, WTest::Reason::ECONOMIC) ? WTest::Reason::ECONOMIC : WTest::Reason::PHYSICAL, t1);
+            }
+            for (const auto& wn : wtest.test_wells(wc, t1)) {
+                std::uint64_t h = sim::mix64(cfg.physics_seed ^ 0x77) + static_cast<std::uint64_t>(r) * 17; for (char ch : wn) h = h * 31 + static_cast<unsigned char>(ch);
+                if (unit01(h) < 0.4) wtest.open_well(wn);
+            }
+        }
         post_step(r, obs);
         if (obs) obs->end_of_step(*this, r);
         if (sim::fs::dead()) return false;
